@@ -12,6 +12,10 @@ CLAIMED = {
    text="Step-wise refinement of the real decoder against an independent executable reconstruction model (candidate selection + median, differential wrap, chroma vector rounding, bilinear half-sample interpolation, edge clamping, dequantisation, f64 IDCT, clipping) over seeded histories I (P | truncated P | corrupted | cleanup)*, with truncation after any byte, chunked delivery and EINTR injected. Every accepted picture is compared sample for sample, starting each step from the real decoder's previous output. Seeded search, so evidence not proof; the space of P pictures x references is unbounded.",
    note="Trusted: model P (written from the Recommendation), the frozen VLC tables, the stated rounding tolerance (counted per run). Histories contain no disposable pictures (C04 decides which picture is the reference).",
    technique="deterministic simulation: seeded decoder histories with truncation/EINTR faults, refinement against an executable reference model"),
+ "C04": dict(level="exploration", design="4.3",
+   text="Seeded histories over {I, P, disposable P, rejected picture (corrupted, truncated in the header, I/O failure), clean-up} with arbitrary 8-bit temporal references (increasing, random, equal to the reference's, equal to the last picture's, wrapping), checked after every event against a reference-management model: get_last_picture() is the last accepted picture with exactly the header sent; rejected calls and clean-ups change nothing; every not-coded macroblock of a P/D picture is a copy of the last non-disposable accepted picture (with attribution of the picture actually used); a disposable picture is accepted and decoded exactly like the same bytes marked P in a decoder in the same state.",
+   note="The verdict uses only copies and equalities, never reconstruction arithmetic. The 'same state' decoder is rebuilt by replaying the accepted pictures. Standard mode has no disposable type.",
+   technique="deterministic simulation: seeded decoder histories with rejected pictures and I/O faults, reference-management model checked after every event"),
  "C05": dict(level="fault_enumeration", design="4.4",
    text="For each seeded scenario (history, valid victim picture, valid continuation) the faults are enumerated exhaustively: a hard I/O error at every source-read index (chained retries on the same reader), EINTR on every other read, every split point of the victim across two deliveries, one semantic poison per parsing depth (header, macroblock header, block data, prediction) and a sample of bit flips. After every failed call the decoder state must be bit-identical, the reader must still be at the start of the picture, the retry must equal a clean decode and the continuation must equal a twin decoder that never saw a failure.",
    note="Twin oracle: the same decoder on both sides, so it decides atomicity/consistency, not absolute correctness. Splits the decoder legitimately accepts as an early-ended picture are counted, not judged.",
@@ -34,7 +38,7 @@ NOT_APPLICABLE = {
  "C16": "Pure function of (size, strength) plus a constant table; no state, no I/O, no schedule.",
 }
 
-PENDING = {k: 'check under construction (claimed in DESIGN.md; not yet registered)' for k in ['C04','C13','C15','C17']}  # id -> reason, for properties whose check is still under construction
+PENDING = {k: 'check under construction (claimed in DESIGN.md; not yet registered)' for k in ['C13','C15','C17']}  # id -> reason, for properties whose check is still under construction
 
 def main():
     hooks_commits = subprocess.check_output(["git","-C","/repo","log","--format=%H %s"],text=True).splitlines()
